@@ -42,6 +42,54 @@ func wellFormed(target, outDir string, files []string, c c11Case) *ev.Failure {
 				return ev.Failf("go-typecheck:"+squash(firstTypeErr(problem)), "-gen %s emitted Go that does not type-check against the runtime: %s", target, problem)
 			}
 		}
+	case "java":
+		r, err := javaParse(outDir)
+		if err != nil {
+			return ev.Failf("harness:java-peer", "%v", err)
+		}
+		if r.Errors > 0 {
+			return ev.Failf("java-syntax", "-gen %s emitted Java that javac's parser rejects (%d errors in %d files): %s\n%s", target, r.Errors, r.Files, r.First, fileAround(r.First))
+		}
+	case "py":
+		tornado := strings.Contains(target, "tornado")
+		asyncio := strings.Contains(target, "asyncio")
+		// py:tornado output is Python 2 syntax by design; py:asyncio needs Python 3; vanilla must parse under both
+		if !tornado {
+			r, err := pyCheck(false, "py", outDir)
+			if err != nil {
+				return ev.Failf("harness:py-peer", "%v", err)
+			}
+			if r.Errors > 0 {
+				return ev.Failf("python-syntax", "-gen %s emitted Python that CPython 3 rejects (%d errors in %d files): %s\n%s", target, r.Errors, r.Files, r.First, fileAround(r.First))
+			}
+		}
+		if !asyncio {
+			r, err := pyCheck(true, "py", outDir)
+			if err != nil {
+				return ev.Failf("harness:py-peer", "%v", err)
+			}
+			if r.Errors > 0 {
+				return ev.Failf("python-syntax", "-gen %s emitted Python that CPython 2.7 rejects (%d errors in %d files): %s\n%s", target, r.Errors, r.Files, r.First, fileAround(r.First))
+			}
+		}
+	case "html":
+		r, err := pyCheck(false, "html", outDir)
+		if err != nil {
+			return ev.Failf("harness:py-peer", "%v", err)
+		}
+		if r.Errors > 0 {
+			return ev.Failf("html-structure", "-gen %s emitted HTML with unbalanced tags: %s", target, r.First)
+		}
+	case "dart":
+		for _, f := range files {
+			if !strings.HasSuffix(f, ".dart") {
+				continue
+			}
+			b, _ := os.ReadFile(f)
+			if p := dartBalance(string(b)); p != "" {
+				return ev.Failf("dart-lexical", "-gen %s emitted Dart that is lexically unbalanced: %s: %s", target, f, p)
+			}
+		}
 	case "json":
 		for _, f := range files {
 			b, _ := os.ReadFile(f)
@@ -74,4 +122,32 @@ func firstTypeErr(p string) string {
 		return l
 	}
 	return p
+}
+
+// fileAround shows the neighbourhood of "path:line: msg".
+func fileAround(first string) string {
+	parts := strings.SplitN(first, ":", 3)
+	if len(parts) < 2 {
+		return ""
+	}
+	b, err := os.ReadFile(parts[0])
+	if err != nil {
+		return ""
+	}
+	ln := 0
+	for _, c := range parts[1] {
+		if c < '0' || c > '9' {
+			break
+		}
+		ln = ln*10 + int(c-'0')
+	}
+	lines := strings.Split(string(b), "\n")
+	lo, hi := ln-6, ln+3
+	if lo < 0 {
+		lo = 0
+	}
+	if hi > len(lines) {
+		hi = len(lines)
+	}
+	return "--- " + parts[0] + "\n" + strings.Join(lines[lo:hi], "\n")
 }
